@@ -198,6 +198,7 @@ def check(ctx):
     prog = ctx.prog("posix-mt")
     check_closer(ctx, prog)
     check_start_path(ctx, prog)
+    R.start_closure(ctx, prog, "C05.O2s")
     R.c05_api(ctx, prog)
     check_allocators(ctx, prog)
     from . import c16
